@@ -31,15 +31,26 @@ _var_counter = [0]
 
 
 class CharVar:
-    __slots__ = ("name", "z", "alpha", "idx", "full", "ords")
+    __slots__ = ("name", "z", "alpha", "idx", "full", "ords", "bit", "fullmask")
 
     def __init__(self, name, alpha):
         self.name = name
         self.z = z3.Int(name)
         self.alpha = tuple(dict.fromkeys(alpha))
         self.full = frozenset(self.alpha)
+        self.bit = {a: 1 << i for i, a in enumerate(self.alpha)}
+        self.fullmask = (1 << len(self.alpha)) - 1
         _var_counter[0] += 1
         self.idx = _var_counter[0]
+
+    def mask(self, chars_):
+        m = 0
+        for a in chars_:
+            m |= self.bit[a]
+        return m
+
+    def unmask(self, m):
+        return frozenset(a for a in self.alpha if m & self.bit[a])
 
     def domain_constraint(self, allowed=None):
         allowed = self.full if allowed is None else allowed
@@ -55,12 +66,15 @@ class CharVar:
 class SBool:
     """Unary: (var, allowed) meaning var in allowed.  General: z3 expr in .e"""
 
-    __slots__ = ("var", "allowed", "_e")
+    __slots__ = ("var", "allowed", "_e", "mask", "cmask")
 
     def __init__(self, e=None, var=None, allowed=None):
         self._e = e
         self.var = var
         self.allowed = allowed
+        if var is not None:
+            self.mask = var.mask(allowed)
+            self.cmask = var.fullmask & ~self.mask
 
     @property
     def unary(self):
